@@ -49,7 +49,7 @@ fn run(input: RunInput) -> ScenFuture {
         let lat_max = w.param("lat_max_us", 300, 30_000) as u64;
         let idle_ms = w.param("idle_ms", 4000, 9000) as u64;
         let ka_ms = w.param("keepalive_ms", 500, idle_ms as i64 / 3) as u64;
-        let max_bidi = w.param("max_bidi_streams", 2, 8) as u64;
+        let max_bidi = w.param("max_bidi_streams", 1, 8) as u64;
         let n_calls = w.param("calls", 1, if w.tier == Tier::Quick { 120 } else { 400 }) as u64;
         let spread_ms = w.param("spread_ms", 0, 3000) as u64;
         let pct_abandon = w.param("abandon_pct", 30, 100) as u32;
